@@ -233,7 +233,12 @@ CHECKS = {
         "interval, and - deterministically - by a scheduler that parks "
         "threads at every line of cook / cook_check / read / load / macros "
         "/ include: all single-preemption schedules of two threads, sampled "
-        "or all double-preemption schedules, drawn three-thread schedules.",
+        "or all double-preemption schedules, drawn three-thread schedules "
+        "(also for threads that compile different templates of one loader "
+        "side by side, with yield points inside the code generator). Further "
+        "parts: other templates compiled in between two compilations of one "
+        "source (isolation), per-call render arguments (translate / target "
+        "language / encoding), engine-provided objects mutated by a template.",
         "No source hook is needed (line events of the named functions are "
         "the yield points); races inside one line or inside C calls are only "
         "reachable by the free-running stage.",
@@ -253,7 +258,11 @@ CHECKS = {
         "a writer is killed before EVERY step and a fresh reader must render "
         "correctly and find no unparsable entry; two stopped-at-every-step "
         "writers of one entry are played through enumerated and drawn "
-        "interleavings.",
+        "interleavings; two or three THREADS of one process store and load "
+        "the same entry under line-level schedules inside the module loader; "
+        "bodies that differ in one small way (line endings, a blank, a "
+        "combining mark) and key material that runs together (body + class "
+        "name) are compiled into one directory in either order.",
         "Crash = process death; steps observed at the Python file-system "
         "API (importlib's byte-code write is one step); reference outcome "
         "computed without cache in the checking process.",
